@@ -176,6 +176,7 @@ pub proof fn lemma_magic_table(m: Seq<u8>)
 }
 
 //@extract fn bigtools/src/bbi/bbiread.rs read_zoom_headers
+//@rule R16
 //@rule R8
 //@sub /<R: SeekableRead>\(\s*file: &mut R,/ => (file: &mut VRead, min=1
 //@sub /io::Result<Vec<ZoomHeader>>/ => Result<Vec<ZoomHeader>, IoError> min=1
@@ -240,6 +241,7 @@ pub proof fn lemma_magic_table(m: Seq<u8>)
 // chromosome tree to the end (chromosome-tree header, read_chrom_tree_block, BBIFileInfo construction) is
 // replaced by returning (filetype, header, zoom_headers).
 //@extract fn bigtools/src/bbi/bbiread.rs read_info
+//@rule R16
 //@rule R8
 //@presub /file\.seek\(SeekFrom::Start\(header\.chromosome_tree_offset\)\)\?;.*Ok\(info\)/ => Ok((filetype, header, zoom_headers)) min=1
 //@sub /<R: BBIFileRead>\(file: &mut R\)/ => (file: &mut VRead) min=1
